@@ -1,7 +1,6 @@
 package core
 
 import (
-	"errors"
 	"io"
 	"os"
 	"regexp"
@@ -41,16 +40,18 @@ type Keys struct {
 
 // WaitAvailableKeys waits until an input key is either read from standard input,
 // or directly returns if the key stack still/already has available keys.
-func WaitAvailableKeys(keys *Keys, cfg *inputrc.Config) {
+// It returns a non-nil error when the input has ended or cannot be read
+// anymore, in which case no more keys will ever be available.
+func WaitAvailableKeys(keys *Keys, cfg *inputrc.Config) error {
 	keys.cfg = cfg
 
 	if len(keys.buf) > 0 && !keys.mustWait {
-		return
+		return nil
 	}
 
 	// The macro engine might have fed some keys
 	if len(keys.macroKeys) > 0 {
-		return
+		return nil
 	}
 
 	keys.mutex.Lock()
@@ -69,8 +70,8 @@ func WaitAvailableKeys(keys *Keys, cfg *inputrc.Config) {
 		// We will either read keyBuf from user, or an EOF
 		// send by ourselves, because we pause reading.
 		keyBuf, err := keys.readInputFiltered()
-		if err != nil && errors.Is(err, io.EOF) {
-			return
+		if err != nil {
+			return err
 		}
 
 		if len(keyBuf) == 0 {
@@ -94,7 +95,7 @@ func WaitAvailableKeys(keys *Keys, cfg *inputrc.Config) {
 			keys.mutex.RUnlock()
 		}
 
-		return
+		return nil
 	}
 }
 
